@@ -340,8 +340,13 @@ func (c *Ctx) reflHooks(root *ast.FuncDecl, copyBlockObj types.Object) Hooks {
 			}
 		case *ast.CompositeLit:
 			// a map literal of the tag table's type; a struct literal sets its fields
-			if mt, ok := c.typeOf(e).Underlying().(*types.Map); ok && types.TypeString(mt.Key(), nil) == "string" && isInt(mt.Elem()) && len(e.Elts) == 0 {
-				return tagV("tagtable", "tagged"), true
+			if mt, ok := c.typeOf(e).Underlying().(*types.Map); ok && types.TypeString(mt.Key(), nil) == "string" && len(e.Elts) == 0 {
+				if isInt(mt.Elem()) {
+					return tagV("tagtable", "tagged"), true
+				}
+				if types.TypeString(mt.Elem(), nil) == "reflect.StructField" {
+					return tagV("tagtable", "tagged:sf"), true // the table holds the fields themselves
+				}
 			}
 			return Value{}, false
 		case *ast.TypeAssertExpr:
@@ -396,6 +401,13 @@ func (c *Ctx) reflHooks(root *ast.FuncDecl, copyBlockObj types.Object) Hooks {
 			k := strOf(idx)
 			if s := p.setter(); s != nil {
 				s.Lookups = append(s.Lookups, reflLookup{"tag", k, e.Pos()})
+			}
+			if x.Data == "tagged:sf" {
+				// the entry is the field itself: what t.Field(tagged[k]) gives with an index table
+				if s := p.setter(); s != nil {
+					s.Field = "tagfield(" + k + ")"
+				}
+				return tagV("sf", sfInfo{"tagfield(" + k + ")", "tag", k}), true
 			}
 			return tagV("tagidx", k), true
 		case isTag(x, "fields"):
@@ -1049,8 +1061,13 @@ func (c *Ctx) reflHooks(root *ast.FuncDecl, copyBlockObj types.Object) Hooks {
 			}
 			return one(st, unknownV()), true
 		case "make":
-			if mt, ok := c.typeOf(call).Underlying().(*types.Map); ok && types.TypeString(mt.Key(), nil) == "string" && isInt(mt.Elem()) {
-				return one(st, tagV("tagtable", "tagged")), true
+			if mt, ok := c.typeOf(call).Underlying().(*types.Map); ok && types.TypeString(mt.Key(), nil) == "string" {
+				if isInt(mt.Elem()) {
+					return one(st, tagV("tagtable", "tagged")), true
+				}
+				if types.TypeString(mt.Elem(), nil) == "reflect.StructField" {
+					return one(st, tagV("tagtable", "tagged:sf")), true
+				}
 			}
 			return one(st, unknownV()), true
 		case "append":
